@@ -182,11 +182,20 @@ pub struct PanicInfo {
 impl PanicInfo {
     /// A stable signature: the location (file:line) and the message prefix up to the first ':' or 60 chars.
     pub fn signature(&self) -> String {
-        let mut m: String = self.message.chars().take(60).collect();
-        if let Some(i) = m.find(':') {
+        // "not a relation: Recursion(Ident(..." -> "not a relation: Recursion": the message up to the payload
+        let mut m: String = self.message.chars().take(80).collect();
+        if let Some(i) = m.find(|c| c == '(' || c == '{' || c == '[' || c == '\n') {
             m.truncate(i);
         }
+        let m = m.trim_end();
         // file without the line number: stable under unrelated edits of the same file
+        let file = self.location.rsplit_once(':').map(|(f, _)| f).unwrap_or(&self.location);
+        format!("{} @ {}", m, file)
+    }
+    /// The message class only (up to the first ':').
+    pub fn class(&self) -> String {
+        let m: String = self.message.chars().take(60).collect();
+        let m = m.split(':').next().unwrap_or("").trim().to_owned();
         let file = self.location.rsplit_once(':').map(|(f, _)| f).unwrap_or(&self.location);
         format!("{} @ {}", m, file)
     }
